@@ -187,7 +187,7 @@ func strcaseStream(cfg *vh.Config, r *vh.Rand, res *vh.Result, n int, caseNo *in
 	return terms
 }
 
-const strcaseShard = 500
+const strcaseShard = 250
 
 func runStrcase(cfg *vh.Config) error {
 	res := vh.NewResult("strcase", cfg.Seed)
